@@ -156,6 +156,7 @@ pub fn all(data: &Value, args: &Vec<&Value>) -> Result<Value, Error> {
     // if it's an object, in case it evaluates to a string or array, which
     // we will then pass on
 
+    let items_are_logic = first_arg.is_array();
     let _new_item: Value;
     let potentially_evaled_first_arg = match first_arg {
         Value::Object(_) => {
@@ -211,12 +212,16 @@ pub fn all(data: &Value, args: &Vec<&Value>) -> Result<Value, Error> {
             if !res {
                 return Ok(false);
             };
-            let _parsed_item = Parsed::from_value(i)?;
-            // Evaluate each item as we go, in case we can short-circuit
-            let evaluated_item = _parsed_item.evaluate(data)?;
-            Ok(logic::truthy_from_evaluated(
-                &predicate.evaluate(&evaluated_item.into())?,
-            ))
+            // Evaluate each item as we go, in case we can short-circuit.
+            // Only items written in a literal array are logic; items of a
+            // computed collection are plain values and are not interpreted again.
+            let item: Value = if items_are_logic {
+                let _parsed_item = Parsed::from_value(i)?;
+                _parsed_item.evaluate(data)?.into()
+            } else {
+                i.clone()
+            };
+            Ok(logic::truthy_from_evaluated(&predicate.evaluate(&item)?))
         })
     })?;
 
@@ -238,6 +243,7 @@ pub fn some(data: &Value, args: &Vec<&Value>) -> Result<Value, Error> {
     // if it's an object, in case it evaluates to a string or array, which
     // we will then pass on
 
+    let items_are_logic = first_arg.is_array();
     let _new_item: Value;
     let potentially_evaled_first_arg = match first_arg {
         Value::Object(_) => {
@@ -293,12 +299,16 @@ pub fn some(data: &Value, args: &Vec<&Value>) -> Result<Value, Error> {
             if res {
                 return Ok(true);
             };
-            let _parsed_item = Parsed::from_value(i)?;
-            // Evaluate each item as we go, in case we can short-circuit
-            let evaluated_item = _parsed_item.evaluate(data)?;
-            Ok(logic::truthy_from_evaluated(
-                &predicate.evaluate(&evaluated_item.into())?,
-            ))
+            // Evaluate each item as we go, in case we can short-circuit.
+            // Only items written in a literal array are logic; items of a
+            // computed collection are plain values and are not interpreted again.
+            let item: Value = if items_are_logic {
+                let _parsed_item = Parsed::from_value(i)?;
+                _parsed_item.evaluate(data)?.into()
+            } else {
+                i.clone()
+            };
+            Ok(logic::truthy_from_evaluated(&predicate.evaluate(&item)?))
         })
     })?;
 
